@@ -872,16 +872,22 @@ mod os {
             if let Some(stdin) = stdin {
                 if stdin.as_raw_fd() != 0 {
                     posix::dup2(stdin.as_raw_fd(), 0)?;
+                } else {
+                    posix::clear_cloexec(0)?;
                 }
             }
             if let Some(stdout) = stdout {
                 if stdout.as_raw_fd() != 1 {
                     posix::dup2(stdout.as_raw_fd(), 1)?;
+                } else {
+                    posix::clear_cloexec(1)?;
                 }
             }
             if let Some(stderr) = stderr {
                 if stderr.as_raw_fd() != 2 {
                     posix::dup2(stderr.as_raw_fd(), 2)?;
+                } else {
+                    posix::clear_cloexec(2)?;
                 }
             }
             posix::reset_sigpipe()?;
